@@ -540,6 +540,26 @@ class ZTree:
         return [(to_adj(t["par"], c.get("adj", "csr")), np.array(t["labels"])) for t in c[which]], {}
 
 
+def float_tol(c, est, base):
+    """Tolerance for comparing two *different batchings* of the same items through a float pipeline:
+    entropic pipelines stop on a tolerance shared by the batch; SVD pipelines divide by sqrt(singular values)."""
+    import numpy as _np
+
+    name = c["zoo"]
+    p = c.get("params") or {}
+    tol = base
+    if name == "Sinkhorn" or (name == "Wasserstein" and p.get("method") == "LOT_sinkhorn"):
+        tol = max(tol, 1e-6)
+    if ZOO[name].svd:
+        sv = getattr(est, "singular_values_", None)
+        if sv is None:
+            sv = getattr(est, "component_scaling_", None)
+        if sv is not None and _np.size(sv):
+            cond = float(_np.max(_np.abs(sv)) / max(_np.min(_np.abs(sv)), 1e-300))
+            tol = max(tol, min(1e-4, 1e-8 * cond**2))
+    return tol
+
+
 def make(c, V, n_items=None):
     z = ZOO[c["zoo"]]
     try:
